@@ -161,7 +161,12 @@ class R(object):
     def stmts(self, lst):
         for i, s in enumerate(lst):
             if i:
-                self.add(":")
+                prev = lst[i - 1]
+                if prev[0] == "data" and prev[1] and prev[1][-1][0] == "u":
+                    # trailing blanks of an unquoted DATA item are content in both languages
+                    self.add(":", "none")
+                else:
+                    self.add(":")
             self.stmt(s)
 
     def stmt(self, s):
